@@ -70,25 +70,52 @@ pub fn file_case(g: FileGen) -> BoxedStrategy<FileCase> {
 /// "more than 64 points in a part" are only reachable with sizes the skewed generator rarely draws.
 pub fn large_file_case(nan_zm: bool) -> BoxedStrategy<FileCase> {
     let fins = prop_oneof![2 => Just(0u32), 1 => any::<u32>()];
-    (gen::ty13(), ctor(), finish(), fins, 0u8..3, gen::profile_mix())
+    (gen::ty13(), ctor(), finish(), fins, 0u8..10, gen::profile_mix())
         .prop_flat_map(move |(ty, ctor, fin, mid_fins, mode, prof)| {
-            // mode 0: many records of tiny shapes; 1: few shapes with many parts; 2: few shapes with many points
+            // mode 0-1: many records of tiny shapes; 2-3: few shapes with many parts; 4-5: few shapes with many points;
+            // 6: one shape with 1000-1100 points in a part; 7: one shape with 500-530 parts; 8-9: 4097-4300 points in a part
             let (n, parts, pts) = match mode {
-                0 => (130usize..=420, 2usize, 3usize),
-                1 => (1usize..=3, 330usize, 3usize),
-                _ => (1usize..=3, 3usize, 300usize),
+                0 | 1 => (130usize..=420, 2usize, 3usize),
+                2 | 3 => (1usize..=3, 330usize, 3usize),
+                4 | 5 => (1usize..=3, 3usize, 300usize),
+                6 => (1usize..=1, 2usize, 1100usize),
+                7 => (1usize..=1, 530usize, 2usize),
+                _ => (1usize..=2, 2usize, 4300usize),
             };
             let cfg = gen::GenCfg::new(prof, nan_zm, parts, pts);
             let g = match mode {
-                0 => gen::geom(ty, cfg),
-                1 => gen::geom_sized(ty, cfg, 260..=parts, 0..=3),
-                _ => gen::geom_sized(ty, cfg, 1..=3, 70..=pts),
+                0 | 1 => gen::geom(ty, cfg),
+                2 | 3 => gen::geom_sized(ty, cfg, 260..=parts, 0..=3),
+                4 | 5 => gen::geom_sized(ty, cfg, 1..=3, 70..=pts),
+                6 => gen::geom_sized(ty, cfg, 1..=2, 1000..=pts),
+                7 => gen::geom_sized(ty, cfg, 500..=parts, 0..=2),
+                _ => gen::geom_sized(ty, cfg, 1..=2, 4097..=pts),
             };
             proptest::collection::vec(g, n).prop_map(move |geoms| FileCase {
                 ty,
                 ctor,
                 fin,
                 disk: false,
+                mid_fins,
+                rejects: 0,
+                geoms,
+            })
+        })
+        .boxed()
+}
+
+/// Thousands of small records of varying sizes written and read through the path-based routes: the files
+/// are far larger than the 8 KiB buffers of BufWriter / BufReader, so record headers, record bodies and
+/// index entries fall on every alignment relative to the buffer edges.
+pub fn bufio_file_case() -> BoxedStrategy<FileCase> {
+    (gen::ty13(), ctor(), finish(), prop_oneof![Just(0u32), any::<u32>()], gen::profile_mix())
+        .prop_flat_map(|(ty, ctor, fin, mid_fins, prof)| {
+            let cfg = gen::GenCfg::new(prof, true, 2, 3);
+            proptest::collection::vec(gen::geom(ty, cfg), 2500..=7000).prop_map(move |geoms| FileCase {
+                ty,
+                ctor,
+                fin,
+                disk: true,
                 mid_fins,
                 rejects: 0,
                 geoms,
